@@ -843,6 +843,10 @@ impl Property for P14 {
                     w_sink.push(Step::Err(kind));
                     out.push(C14 { w_sink, w_fatal: true, ..base(fam, items.clone()) });
                 }
+                // a device that accepts zero bytes before byte i: write_all must report WriteZero, a prefix of the frame is out
+                let mut w_sink = vec![Step::Xfer(1); i];
+                w_sink.push(Step::Zero);
+                out.push(C14 { w_sink, w_fatal: true, ..base(fam, items.clone()) });
             }
             // (e) max_len knobs around the frame size on both sides
             for wm in 0..=3u8 {
@@ -1021,7 +1025,13 @@ impl Property for P14 {
         let (rs, re) = (r.chance(3, 4), r.chance(1, 2));
         let r_src = lane(r, rs, re, r_fatal);
         let (ws, we) = (r.chance(1, 2), r.chance(1, 3));
-        let w_sink = lane(r, ws, we, w_fatal);
+        let mut w_sink = lane(r, ws, we, w_fatal);
+        if w_fatal && r.chance(1, 3) {
+            // the fatal event is "accepts zero bytes" instead of an error kind
+            if let Some(p) = w_sink.iter().position(|s| matches!(s, Step::Err(k) if *k != ErrKind::Interrupted)) {
+                w_sink[p] = Step::Zero;
+            }
+        }
         let cut = if r.chance(1, 4) && len > 0 { Some(r.below(len as u64 + 1) as u32) } else { None };
         let roomy_w = r.chance(1, 2);
         C14 {
